@@ -80,38 +80,64 @@ def read_source_constants():
 # mocks
 # ---------------------------------------------------------------------------------------------------------------------
 class World:
-    """one plasma + beam whose sampled values are set per case"""
+    """one plasma + beam with *spatially varying* profiles.  Every quantity is a linear profile through the value the case
+    prescribes at the sampling point the call signature promises (`point` of the plasma models, `plasma_point` of the beam
+    models): q(r) = q0 + g * ((x-x0) + 2(y-y0) + 3(z-z0)), exact at r0, different (and of possibly different sign) anywhere
+    else.  All sampling coordinates are recorded."""
 
-    def __init__(self):
-        from raysect.core import Vector3D
+    def __init__(self, rng):
+        from raysect.core import Vector3D, Point3D
         from cherab.core import Plasma, Beam, AtomicData
         from cherab.core.distribution import DistributionFunction
+        W = self
+        W.rng = rng
+        W.point = (0.1, 0.2, 0.3)
+        W.calls = []
+
+        def off(x, y, z):
+            x0, y0, z0 = W.point
+            return (x - x0) + 2.0 * (y - y0) + 3.0 * (z - z0)
+
+        def scal(v0, d):
+            return v0 + 0.37 * (abs(v0) + 1.0) * d
 
         class Dist(DistributionFunction):
-            def __init__(s):
+            def __init__(s, tag):
                 super().__init__()
+                s.tag = tag
                 s.t = 1.0
-                s.v = Vector3D(0, 0, 0)
+                s.v = (0.0, 0.0, 0.0)
                 s.n = 1e19
 
             def effective_temperature(s, x, y, z):
-                return s.t
+                W.calls.append((s.tag + '.effective_temperature', x, y, z))
+                return scal(s.t, off(x, y, z))
 
             def bulk_velocity(s, x, y, z):
-                return s.v
+                W.calls.append((s.tag + '.bulk_velocity', x, y, z))
+                d = off(x, y, z)
+                return Vector3D(s.v[0] + 3.1e4 * d, s.v[1] - 1.7e4 * d, s.v[2] + 0.9e4 * d)
 
             def density(s, x, y, z):
-                return s.n
+                W.calls.append((s.tag + '.density', x, y, z))
+                return scal(s.n, off(x, y, z))
 
             def evaluate(s, *a):
                 return 0.0
 
+        def bfield(x, y, z):
+            W.calls.append(('b_field', x, y, z))
+            d = off(x, y, z)
+            b = W.B0
+            return Vector3D(b[0] + 0.8 * d, b[1] - 1.3 * d, b[2] + 0.5 * d)
+
         self.V = Vector3D
-        self.ion = Dist()
-        self.el = Dist()
+        self.P3 = Point3D
+        self.ion = Dist('species')
+        self.el = Dist('electrons')
         self.plasma = Plasma()
-        self.B = [Vector3D(0, 0, 0)]
-        self.plasma.b_field = lambda x, y, z: self.B[0]
+        self.B0 = (0.0, 0.0, 0.0)
+        self.plasma.b_field = bfield
         self.plasma.electron_distribution = self.el
         self.ad = AtomicData()
         self.beam = Beam()
@@ -125,12 +151,21 @@ class World:
         return self._elements[aw]
 
     def set_env(self, e):
-        V = self.V
+        """prescribe the values at a fresh random sampling point; elsewhere the profiles differ"""
+        rng = self.rng
+        self.point = (rng.uniform(-2, 2), rng.uniform(-2, 2), rng.uniform(-2, 2))
         self.ion.t = e['ts']
-        self.ion.v = V(*e['vel'])
-        self.B[0] = V(*e['b'])
+        self.ion.v = tuple(e['vel'])
+        self.B0 = tuple(e['b'])
         self.el.n = e['ne']
         self.el.t = e['te']
+        self.calls = []
+
+    def other_point(self):
+        """a point of the *other* frame (beam_point): guaranteed off the sampling point along the profile gradient"""
+        rng = self.rng
+        x0, y0, z0 = self.point
+        return (x0 + rng.uniform(0.1, 1.5), y0 + rng.uniform(0.1, 1.5), z0 + rng.uniform(0.1, 1.5))
 
 
 def spectrum(mn, mx, bins, base=None):
@@ -368,10 +403,28 @@ class Run:
         self.lor_pending = []
         self.cur_kidx = {}
         self.k_ok = set()
-        self.W = World()
+        self.W = World(ctx.rng)
         from raysect.core import Point3D, Vector3D
-        self.P = Point3D(0.1, 0.2, 0.3)
         self.V = Vector3D
+
+    @property
+    def P(self):
+        """the sampling point of the current case (set by World.set_env)"""
+        return self.W.P3(*self.W.point)
+
+    def sampling_check(self, name, desc, kind):
+        """S: every plasma quantity was sampled exactly at the point (and in the frame) the signature promises"""
+        calls, self.W.calls = self.W.calls, []
+        bad = [c for c in calls if tuple(c[1:]) != tuple(self.W.point)]
+        self.ctx.count('S:sampling-point')
+        self.ctx.case(key=('S', 'sampling', kind, len(calls)))
+        if bad:
+            self.ctx.count('S-fail:C02:%s:plasma-sampled-at-wrong-point' % name)
+            self.ctx.fail('C02:%s:plasma-sampled-at-wrong-point' % name,
+                          '%s sampled %s at %r; the point passed for the plasma quantities is %r (profiles vary in space, so the line shape is '
+                          'that of another location)' % (name, bad[0][0], tuple(bad[0][1:]), tuple(self.W.point)),
+                          dict(desc, sampling_point=list(self.W.point), sampled=[list(c) for c in bad[:4]]))
+        return calls
 
     # -- K bookkeeping -------------------------------------------------------------------------------------------------
     def k_case(self, kind, line, impl, floor, desc, key):
@@ -896,6 +949,7 @@ def stream_models(run, n):
             desc = dict(model=type(m).__name__, polarisation=pol, radiance=R, env={k: e[k] for k in ('wl', 'aw', 'ts', 'vel', 'dir', 'b', 'ne', 'te')},
                         extra={k: v for k, v in extra.items() if k != 'fns'}, min=s.min_wavelength, max=s.max_wavelength, bins=bins,
                         window=cls, B=e['bclass'], T=e['tclass'])
+            run.sampling_check(type(m).__name__, desc, kind)
             if sg > 0 and 2 * cutG * sg / dl < 2 ** 29:
                 floor = (K_FLOOR if kind != 'stark' else 1e-11) * abs(R) / dl + 1e-300
                 key = (pol, cls, e['bclass'], e['tclass'], f2b(e['wl']), f2b(R))
@@ -1165,6 +1219,7 @@ def stream_ratios(run, n):
         y = np.asarray(s.samples)
         desc = dict(model=type(m).__name__, polarisation=pol, radiance=R, env={k: e[k] for k in ('wl', 'aw', 'ts', 'vel', 'dir', 'b')},
                     extra={k: v for k, v in extra.items() if k != 'fns'}, min=mn, max=mx, bins=bins)
+        run.sampling_check(type(m).__name__, desc, 'ratios-' + kind)
         bad = []
         for Rc, w, sc in comps:
             sel = np.abs(x - w) <= 12 * sc
@@ -1369,6 +1424,7 @@ def stark_through_integrator(run, q, hist):
         s = spectrum(mn, mn + dl * bins, bins)
         m.add_line(R, run.P, run.V(*e['dir']), s)
         out.append(([float(t) for t in s.samples], s))
+        run.sampling_check('StarkBroadenedLine', dict(model='StarkBroadenedLine', polarisation=pol, radiance=R), 'gqh-stark')
     impl, s = out[0]
     desc = dict(model='StarkBroadenedLine', polarisation=pol, radiance=R, env={k: e[k] for k in ('wl', 'aw', 'ts', 'vel', 'dir', 'b', 'ne', 'te')},
                 extra=dict(cab=cab), min=s.min_wavelength, max=s.max_wavelength, bins=bins, integrator_history=list(hist),
@@ -1438,9 +1494,11 @@ def stream_pol_histories(run, n):
         s = spectrum(mn, mx, bins, base)
         m.add_line(R, run.P, run.V(*e['dir']), s)
         impl = [float(t) for t in s.samples]
+        run.sampling_check(type(m).__name__, dict(model=type(m).__name__, polarisation=cur, radiance=R), 'polh-' + kind)
         f = build_model(run, kind, e, cur, extra)
         s2 = spectrum(mn, mx, bins, base)
         f.add_line(R, run.P, run.V(*e['dir']), s2)
+        run.W.calls = []
         desc = dict(model=type(m).__name__, polarisation=cur, polarisation_history=hist, radiance=R,
                     env={k: e[k] for k in ('wl', 'aw', 'ts', 'vel', 'dir', 'b', 'ne', 'te')}, extra={k: v for k, v in extra.items() if k != 'fns'},
                     min=s.min_wavelength, max=s.max_wavelength, bins=bins, window=cls)
@@ -1513,12 +1571,19 @@ def stream_mse(run, n):
             continue
         base = gen_base(rng, bins) if not isolated else [0.0] * bins
         s = spectrum(mn, mx, bins, base)
-        r = m.add_line(R, Point3D(0, 0, 0), run.P, run.V(*bdir), run.V(*e['dir']), s)
+        # beam frame != plasma frame: the beam-space point differs from the plasma-space point, and the profiles vary in space
+        beam_pt = W.other_point()
+        r = m.add_line(R, Point3D(*beam_pt), run.P, run.V(*bdir), run.V(*e['dir']), s)
         impl = [float(t) for t in s.samples]
         mn, mx, dl = s.min_wavelength, s.max_wavelength, s.delta_wavelength
         desc = dict(model='BeamEmissionMultiplet', radiance=R, wavelength=e['wl'], te=e['te'], ne=e['ne'], beam_energy=energy, beam_temperature=btemp,
                     beam_mass=mass, b=e['b'], beam_direction=bdir, observation_direction=e['dir'], ratios=dict(sigma_to_pi=s2p, sigma1_to_sigma0=s1s0,
-                    pi2_to_pi3=p2p3, pi4_to_pi3=p4p3), min=mn, max=mx, bins=bins, window=cls)
+                    pi2_to_pi3=p2p3, pi4_to_pi3=p4p3), min=mn, max=mx, bins=bins, window=cls, beam_point=list(beam_pt), plasma_point=list(W.point))
+        sampled = run.sampling_check('BeamEmissionMultiplet', desc, 'mse')
+        names = set(c[0] for c in sampled)
+        need = {'electrons.effective_temperature'} | ({'electrons.density', 'b_field'} if e['te'] > 0 and e['ne'] > 0 else set())
+        run.s_check(need <= names, 'C02:BeamEmissionMultiplet:plasma-quantity-not-sampled',
+                    'quantities sampled: %r, expected at least %r at plasma_point' % (sorted(names), sorted(need)), desc, 'mse-sampled-set', (len(names),))
         if btemp >= 0 and bins <= 64 and 2 * cutG * width / dl < 2 ** 29:
             line_ = 'mse %s %s %s' % (f2b(R), fs([e['wl'], e['te'], e['ne'], energy] + e['b'] + bdir + e['dir'] + [mass, btemp, s2p, s1s0, p2p3, p4p3]),
                                       spec_tokens(s, base))
@@ -1534,7 +1599,8 @@ def stream_mse(run, n):
             fb.element = el
             fm = BeamEmissionMultiplet(line, e['wl'], fb, W.ad, lambda n_, e_: s2p, lambda n_: s1s0, lambda n_: p2p3, lambda n_: p4p3)
             s2_ = spectrum(mn, mx, bins, base)
-            fm.add_line(R, Point3D(0, 0, 0), run.P, run.V(*bdir), run.V(*e['dir']), s2_)
+            fm.add_line(R, Point3D(*beam_pt), run.P, run.V(*bdir), run.V(*e['dir']), s2_)
+            W.calls = []
             run.s_check(impl == [float(t) for t in s2_.samples], 'C02:BeamEmissionMultiplet:beam-setter-history!=fresh-beam',
                         'BeamEmissionMultiplet on a Beam whose energy/temperature/element were changed through the setters differs from a fresh Beam '
                         'with the same final values', desc, 'mse-fresh-beam', (cls,))
@@ -1772,6 +1838,7 @@ def replay_model(run_, d):
         s = spectrum(d['min'], d['max'], d['bins'])
         m.add_line(R, run_.P, run_.V(*e['dir']), s)
         res[pol] = ([float(t) for t in s.samples], s)
+        run_.sampling_check(type(m).__name__, dict(d, polarisation=pol), 'replay')
         if kind == 'stark' and run_.src['lorentz_variant'] != 'cdf':
             run_.k_case('m-stark', model_line('stark', pol, R, e, extra, s, base), res[pol][0], 1e-11 * abs(R) / s.delta_wavelength + 1e-300,
                         dict(d, polarisation=pol), key=('replay', pol))
